@@ -7,9 +7,18 @@ from .core import uncp
 IDS = ["Alpha", "Beta", "Gamma", "Delta", "Eps", "Zeta", "Eta", "Theta", "Iota", "Kappa", "Lambda", "Mu"]
 
 
+# variant identifiers that also name things generated code mentions (associated types, prelude items)
+TIDS = ["None", "Some", "Ok", "Err", "Error", "Iterator", "Item", "Output", "Default", "Option", "Result", "Discriminant"]
+
+
+def ids_for(did):
+    return TIDS if did % 5 == 4 else IDS
+
+
 def shape(rng, did, n, mask, kinds="mixed", generics="none", style="none"):
     """n variants, mask[i] = disabled"""
     vs = []
+    IDS = ids_for(did)
     for i in range(n):
         kind = "unit" if kinds == "unit" else rng.choice(["unit", "unit", "tuple", "named"])
         nf = 0 if kind == "unit" else rng.choice([0, 1, 2])
